@@ -157,4 +157,72 @@ example : (rrun (some 5) false [.data 2 false, .data 3 true]).done = true ∧
     (rrun (some 5) false [.data 2 false, .data 4 true]).reset = true ∧
     (rrun (some 5) false [.data 2 false, .trailers]).reset = true := by decide
 
+/-- **An accepted target contains no separator**: for every accepted header
+    list the forwarded request-target holds none of SP, HTAB, VT, FF, CR, LF,
+    NUL, DEL — so every RFC 9112 §3 recipient (even one that splits the
+    request line on any whitespace) finds the same three components. -/
+theorem C03_target_has_no_separator (lim : Limits) (es : Bool) (hl : List (Bytes × Bytes)) (r : Req)
+    (h : validateRequest lim es hl = .ok r) :
+    ∀ b ∈ r.target, b ≠ 32 ∧ b ≠ 9 ∧ b ≠ 11 ∧ b ≠ 12 ∧ b ≠ 13 ∧ b ≠ 10 ∧ b ≠ 0 ∧ b ≠ 127 :=
+  target_no_separator (validate_wf lim es hl r h)
+
+/-- a `:path` with an HTAB is rejected (`has_invalid_pseudo_value_byte`) -/
+example : validateRequest ⟨65536, 100, 2 ^ 64⟩ true
+    [(sMethod, [71, 69, 84]), (sScheme, sHttps), (sPath, [47, 97, 9, 98]), (sAuthority, [97])] = .error .badPseudoValue := by
+  rfl
+
+/-- **Trailers, as RFC 9112 wants them** (`_partial`: the hypothesis `hfix`
+    says the bytes sozu writes are the intended ones — last-chunk before the
+    trailer section on a chunked body, nothing after a Content-Length body;
+    it is exactly what the open findings `c03-trailers-without-last-chunk` /
+    `c03-trailers-after-length-body` violate, see
+    `C03_unambiguous_trailers_counterexample`). Under it, for every
+    well-formed request, fitting body and clean trailer list (what
+    `handle_trailer` lets through, `C03_trailers_clean`), the strict reader
+    reads back request, payload and trailers and consumes exactly those bytes. -/
+theorem C03_unambiguous_trailers_partial (r : Req) (chunks : List Bytes) (t : List (Bytes × Bytes)) (rest : Bytes)
+    (h : WF r) (hb : BodyFits r chunks) (ht : ∀ kv ∈ t, LineOK kv)
+    (hfix : wireBody r chunks (some t) = intendedBody r chunks t) :
+    parseStrict (serializeH1 r ++ wireBody r chunks (some t) ++ rest) = some (understoodT r chunks t, rest) :=
+  parseStrict_trailers_of_fix r chunks t rest h hb ht hfix
+
+/-- non-vacuity of the conclusion's right-hand side: the intended bytes of the example request with one trailer -/
+example : parseStrict (serializeH1 exampleReq ++ intendedBody exampleReq [] [([120], [49])]) =
+    some (understoodT exampleReq [] [([120], [49])], []) := by
+  simpa using parseStrict_intended exampleReq [] [([120], [49])] [] exampleReq_wf trivial (by decide)
+
+/-- non-vacuity examples for the rejection and cleanliness theorems -/
+example : ∃ r, validateRequest ⟨65536, 100, 2 ^ 64⟩ false
+    [(sMethod, [71, 69, 84]), (sScheme, sHttps), (sPath, [47]), (sAuthority, [97]), (sCookie, [97, 61, 49]), ([120], [49])] = .ok r ∧
+    r.body = .chunked := ⟨_, rfl, rfl⟩
+
+example : ∃ e, validateRequest ⟨65536, 100, 2 ^ 64⟩ false
+    ([(sMethod, [71])] ++ (sContentLength, [49]) :: [] ++ (sContentLength, [50]) :: []) = .error e :=
+  C03_reject_conflicting_content_length _ _ _ _ _ _ _ _ _ (by decide) (by decide) (by decide)
+
+example : ∃ e, validateRequest ⟨65536, 100, 2 ^ 64⟩ false
+    ([] ++ ([120], [49]) :: [] ++ (sPath, [47]) :: []) = .error e :=
+  C03_reject_pseudo_order _ _ _ _ _ _ _ _ _ (by decide) (by decide)
+
+example : ∃ e, validateRequest ⟨65536, 100, 2 ^ 64⟩ false
+    ([] ++ (sPath, [47]) :: [] ++ (sPath, [47]) :: []) = .error e :=
+  C03_reject_duplicate_pseudo _ _ _ _ _ _ _ _ _ sPath (by decide) (by decide) (by decide)
+
+example : handleTrailer ⟨65536, 100, 2 ^ 64⟩ true [([120], [49]), ([120, 45, 114, 101, 97, 108, 45, 105, 112], [54])]
+    = .ok [([120], [49])] := by rfl
+
+/-- **Whole connections** (history form of `C03_accepted_reads_back`): for
+    every sequence of header lists sozu accepted, each with a body fitting the
+    framing it chose, the strict reader parses everything written on the
+    backend connection into exactly that sequence of requests, nothing left. -/
+theorem C03_accepted_sequence (lim : Limits) (reqs : List (Bool × List (Bytes × Bytes) × Req × List Bytes))
+    (h : ∀ q ∈ reqs, validateRequest lim q.1 q.2.1 = .ok q.2.2.1 ∧ BodyFits q.2.2.1 q.2.2.2) :
+    parseAll (reqs.flatMap fun q => wire q.2.2.1 q.2.2.2) = (reqs.map fun q => understood q.2.2.1 q.2.2.2, []) :=
+  parseAll_accepted lim reqs h
+
+/-- the hypotheses of `C03_accepted_sequence` are satisfiable: an accepted GET with END_STREAM and no DATA -/
+example : ∃ r, validateRequest ⟨65536, 100, 2 ^ 64⟩ true
+    [(sMethod, [71, 69, 84]), (sScheme, sHttps), (sPath, [47]), (sAuthority, [97])] = .ok r ∧ BodyFits r [] :=
+  ⟨_, rfl, rfl⟩
+
 end Sozu.Headers
